@@ -48,6 +48,7 @@ type fuzzCase struct {
 	// and whether an envelope declared far more than was ever delivered
 	alloc0, allocDelta uint64
 	hugeDeclared       int
+	tinyWindows        int // streams whose handler cannot send its response for lack of window
 }
 
 var fuzzMethods = []string{"/sim.Test/Unary", "/sim.Test/ClientStream", "/sim.Test/ServerStream", "/sim.Test/Bidi", "sim.Test/Unary"}
@@ -317,7 +318,18 @@ func genClientConversation(c *Chooser, w *World, fc *fuzzCase, rev tunnelpb.Prot
 		}
 		p.ReqSizes = make([]int, nmsg)
 		var fr []*tunnelpb.ClientToServer
-		fr = append(fr, FNew(id, shapeMethods[shape], s, rev, 65536, nil))
+		// the window the raw client announces for the responses: now and then so
+		// small that the handler is blocked in its send when the stream's
+		// further frames (cancel, violations) arrive; the raw client never
+		// grants more
+		win := uint32(65536)
+		if rev == tunnelpb.ProtocolRevision_REVISION_ONE {
+			win = Pick(c, "fzwin", uint32(65536), uint32(65536), uint32(65536), uint32(65536), uint32(65536), uint32(4), uint32(1), uint32(0))
+		}
+		if win < 65536 {
+			fc.tinyWindows++
+		}
+		fr = append(fr, FNew(id, shapeMethods[shape], s, rev, win, nil))
 		for m := 0; m < nmsg; m++ {
 			p.ReqSizes[m] = Pick(c, "fzmsglen", 0, 3, 50, 20000)
 			b := RequestBytes(s, m, p.ReqSizes[m])
@@ -335,7 +347,7 @@ func genClientConversation(c *Chooser, w *World, fc *fuzzCase, rev tunnelpb.Prot
 				fr = append(fr, FMore(id, b[off:end]))
 			}
 		}
-		if c.Intn(8, "fzend") == 7 {
+		if c.Intn(8, "fzend") == 7 || (win < 65536 && c.Intn(2, "fzendtiny") == 1) {
 			fr = append(fr, FCancelFrame(id))
 		} else {
 			fr = append(fr, FHalf(id))
@@ -536,6 +548,9 @@ func OracleC09(w *World, h *History) {
 	// must not turn into an allocation of that size.
 	if fc.hugeDeclared > 0 {
 		h.Derived["probe.huge_declared_size"]++
+	}
+	if fc.tinyWindows > 0 {
+		h.Derived["probe.handler_blocked_on_tiny_window"]++
 	}
 	if fc.allocDelta > 100<<20 {
 		w.AddViolation("C09", "bloat", fmt.Sprintf("the process allocated %d MiB during a run in which the peer delivered well under 1 MiB (largest declared message size beyond the data delivered: %d bytes)", fc.allocDelta>>20, fc.hugeDeclared), det, 0)
